@@ -7,6 +7,7 @@ import (
 	"fmt"
 	"go/token"
 	"go/types"
+	"os"
 	"path/filepath"
 	"strings"
 	"time"
@@ -271,6 +272,19 @@ type Exec struct {
 	forkSmallTables bool
 	crossCheck   bool
 	Fallbacks    int
+	guards       []*smt.Term // conditions of the speculated sides being executed
+	rewound      int // index of the next draw to reuse, -1 = not rewound / diverged
+	rewoundEnd   int
+	symLitIdx    map[string]int
+}
+
+// guardTerm is the conjunction of the guards of the speculated sides being executed.
+func (ex *Exec) guardTerm() *smt.Term {
+	g := ex.ctx.True
+	for _, t := range ex.guards {
+		g = ex.ctx.And(g, t)
+	}
+	return g
 }
 
 func (ex *Exec) noteAbort(why string) {
@@ -280,9 +294,9 @@ func (ex *Exec) noteAbort(why string) {
 	ex.forkSites["spec-abort: "+why]++
 }
 
-func (ex *Exec) noteFork() {
+func (ex *Exec) site() string {
 	if ex.in == nil || ex.in.top == nil {
-		return
+		return "?"
 	}
 	f := ex.in.top
 	site := f.fn.String()
@@ -290,6 +304,14 @@ func (ex *Exec) noteFork() {
 		p := ex.in.prog.Fset.Position(f.cur.Pos())
 		site += fmt.Sprintf(" %s:%d", filepath.Base(p.Filename), p.Line)
 	}
+	return site
+}
+
+func (ex *Exec) noteFork() {
+	if ex.in == nil || ex.in.top == nil {
+		return
+	}
+	site := ex.site()
 	if ex.forkSites == nil {
 		ex.forkSites = map[string]int{}
 	}
@@ -382,7 +404,19 @@ func (ex *Exec) branch(c *smt.Term) bool {
 		return c.Val == 1
 	}
 	if ex.in != nil && len(ex.in.spec) > 0 {
-		panic(specAbort{"fork"})
+		// inside a speculated side: a branch that is decided by the path
+		// condition and the side's guards is simply followed
+		g := ex.guardTerm()
+		if !ex.feasible(ex.ctx.And(g, c)) {
+			return false
+		}
+		if !ex.feasible(ex.ctx.And(g, ex.ctx.Not(c))) {
+			return true
+		}
+		if os.Getenv("GOSX_SPECDEBUG") != "" {
+			fmt.Fprintf(os.Stderr, "spec fork: cond=%s guards=%s\n", c, g)
+		}
+		panic(specAbort{"fork at " + ex.site()})
 	}
 	idx := len(ex.trail)
 	if idx < len(ex.prefix) {
